@@ -434,3 +434,22 @@ def par_model(ctx, engine, lines, timeout=1800):
     with ThreadPoolExecutor(max_workers=k) as ex:
         parts = list(ex.map(one, pcs))
     return [r for p in parts for r in p]
+
+
+_RM = []
+
+
+def rm_bg(path):
+    """remove a directory tree without waiting for it (thousands of jails, some nested a hundred levels deep: on a
+    busy machine the removal takes longer than the runs); what is left when the check ends goes with ctx.scratch"""
+    import subprocess
+    if not os.path.lexists(path):
+        return
+    old = "%s.old%d" % (path, len(_RM))
+    try:
+        os.rename(path, old)
+    except OSError:
+        import shutil
+        shutil.rmtree(path, ignore_errors=True)
+        return
+    _RM.append(subprocess.Popen(["rm", "-rf", old], stdout=subprocess.DEVNULL, stderr=subprocess.DEVNULL))
